@@ -48,10 +48,17 @@ def _run_variant(args) -> Dict[str, Any]:
             res["why"] = f"anchor text occurs {src.count(var['old'])} times"
             return res
         _copy_pkg(repo, dst)
+        newsrc = src.replace(var["old"], var["new"])
+        for o2, n2 in var.get("extra", []):
+            if newsrc.count(o2) != 1:
+                res["status"] = "skipped"
+                res["why"] = "extra anchor text not unique"
+                return res
+            newsrc = newsrc.replace(o2, n2)
         with open(os.path.join(dst, "stackscope", var["file"]), "w", encoding="utf-8") as f:
-            f.write(src.replace(var["old"], var["new"]))
+            f.write(newsrc)
         try:
-            compile(src.replace(var["old"], var["new"]), var["file"], "exec")
+            compile(newsrc, var["file"], "exec")
         except SyntaxError as ex:
             res["status"] = "broken-variant"
             res["why"] = f"variant does not compile: {ex}"
